@@ -30,6 +30,20 @@ func Partition(c *core.Case) []*memstore.Store {
 		n = 1
 	}
 	groups := make([][]core.Series, n)
+	if c.Mode == "dist-timesplit" && n >= 2 {
+		// every series lives on two engines, which hold disjoint time ranges of it
+		for i, s := range c.Series {
+			cut := len(s.Samples) / 2
+			a, b := i%n, (i+1)%n
+			groups[a] = append(groups[a], core.Series{Labels: s.Labels, Samples: s.Samples[:cut]})
+			groups[b] = append(groups[b], core.Series{Labels: s.Labels, Samples: s.Samples[cut:]})
+		}
+		out := make([]*memstore.Store, n)
+		for i := range groups {
+			out[i] = memstore.New(groups[i])
+		}
+		return out
+	}
 	for i, s := range c.Series {
 		p := 0
 		if i < len(c.Parts) {
